@@ -18,6 +18,15 @@ reference models mc.ref.rsa / dsa / ec / der (pure Python, RFC 8017, FIPS 186-4,
   EdDSA (_c04_eddsa.py)          Ed25519 / Ed448, pure / context (0, 1, 255 octets) / prehash; candidates from genuine
                                  signatures, re-encoded public keys, and the crafted small-order grid (A x R x S).
 
+The thorough tier widens every part (see grid_description() for the exact grid written into the evidence): RSA moduli of every
+bit length 1024..1032 (every residue mod 8) and of 1536, 2049, 3072, 4096 bits, the bit-flip alphabets for every PKCS#1 v1.5 hash
+and nine PSS configurations, every PSS salt length 0..max+1, every (hash, MGF1 hash) pair; DSS bit flips for every key x
+encoding x hash x message and with the fips-186-3 verifier, ten boundary private keys per domain with every hash, octet sweeps
+(one octet of the signature takes all 256 values at every tag / length / first / last content position), longer entropy tapes,
+DSA domains outside the FIPS (L, N) list (observed only); EdDSA contexts of 0, 1, 2, 127, 128, 254, 255 octets, every message
+length 0..272 and around 2^9..2^16, bit flips for every variant x message, octet sweeps of R, S and the public key; object-reuse
+histories of depth 5 for nine scheme objects and depth 4 for 43 more.
+
 Oracle (one-sided where the property text is): (i) verify(sign(m)) succeeds; (ii) library accepts => the standard
 accepts, and every refusal is a ValueError; (iii) PKCS#1 v1.5, PSS-for-a-given-salt, RFC 6979 and EdDSA signatures are
 byte-identical to the reference, FIPS-mode (EC)DSA equals the reference for the k read off the tape; (iv) repeating
@@ -71,9 +80,9 @@ def rsa_plan(q):
 
 # thorough tier: which configurations get the complete alphabets (every bit of the signature, every bit of the encoded message,
 # all structured forgeries) per class of modulus size: A <= 1032 bits, B = 1536..2049 bits, C = 3072 and 4096 bits
-V15_FULL = {"A": ("sha256", "md5", "sha1", "sha224", "sha384", "sha512", "ripemd160", "sha3_256", "sha512_224", "blake2b_512"),
+V15_FULL = {"A": B.V15_HASHES,
             "B": ("sha256", "sha1", "sha512"), "C": ("sha256",)}
-V15_SIGFORGE_C = ("md5", "sha1", "sha512", "sha3_256", "sha512_224", "blake2b_512")
+V15_SIGFORGE_C = ("sha1", "sha512", "sha3_256")
 PSS_FULL = {"A": (("sha256", None, None), ("sha256", None, 0), ("sha256", None, "max"), ("sha256", "sha1", None), ("sha1", "sha256", 0),
                   ("sha1", None, None), ("sha512", None, None), ("sha512", None, "max"), ("sha3_256", None, 20)),
             "B": (("sha256", None, None), ("sha256", None, "max"), ("sha1", "sha256", 0)), "C": (("sha256", None, None),)}
@@ -93,19 +102,27 @@ def rsa_keys_thorough():
 
 
 def _rsa_cost(bits, scheme, cfg, what, nmsg=1):
-    """estimated CPU seconds of one shard (measured: 1.1 ms per candidate at 1024 bits, 4.8 ms at 2048 bits)"""
-    per = 0.0011 * (bits / 1024.0) ** 2.15
+    """estimated CPU seconds of one shard.  Measured: a candidate that is only verified costs 0.6 ms at 1024 bits and grows
+    quadratically; one whose encoded message is first raised to d by the pure-Python reference costs 1.45 ms and grows with
+    bits^2.63 (55 ms at 4096 bits)"""
+    a = 0.0006 * (bits / 1024.0) ** 2
+    b = 0.00145 * (bits / 1024.0) ** 2.63
     k = (bits + 7) // 8
-    n = 6
+    na, nb = 2, 4
     if "sig" in what:
-        n += 30
+        na += 30
     if "flips" in what:
-        n += 8 * k
+        na += 8 * k
     if "forge" in what:
-        n += 70 + max(0, k - 60 if scheme == "v15" else k - 2 * 32)
+        nb += 70 + max(0, k - 60 if scheme == "v15" else k - 2 * 32)
     if "emflips" in what:
-        n += 8 * k
-    return per * n * nmsg
+        nb += 8 * k
+    if "emflips64" in what:
+        nb += 128 + k
+    return (a * na + b * nb) * nmsg
+
+
+PSS_FORGE_C = (("sha256", None, 0), ("sha256", None, "max"), ("sha1", "sha256", 0), ("sha512", None, "max"))
 
 
 def rsa_plan_thorough():
@@ -130,17 +147,14 @@ def rsa_plan_thorough():
         other[kn] = keys[(i + 1) % len(keys)]
     full = ["sig", "flips", "forge", "emflips"]
     for kn in keys:
+        if kn in ("rsa3072e65537", "rsa4096e65537"):
+            continue                               # class C: below
         bits = int(kn[3:].split("e")[0])
         cl = rsa_class(bits)
-        # PKCS#1 v1.5: every hash signs and verifies on every key; signature-level candidates and forged encoded messages for
-        # every hash (class C: seven of them); the bit-flip alphabets for the hashes of V15_FULL; SHA-256 with all five messages
+        # PKCS#1 v1.5: every hash signs and verifies on every key, with signature-level candidates and forged encoded messages;
+        # the bit-flip alphabets for the hashes of V15_FULL; SHA-256 with all five messages
         for hn in B.V15_HASHES:
-            if hn in V15_FULL[cl]:
-                add("v15", kn, hn, ["asc33"], full)
-            elif cl != "C" or hn in V15_SIGFORGE_C:
-                add("v15", kn, hn, ["asc33"], ["sig", "forge"])
-            else:
-                add("v15", kn, hn, ["asc33"], [])
+            add("v15", kn, hn, ["asc33"], full if hn in V15_FULL[cl] else ["sig", "forge"])
         for mn in EXTRA_MSGS:
             add("v15", kn, "sha256", [mn], ["sig", "forge"])
             add("pss", kn, ("sha256", None, None), [mn], ["sig", "forge"])
@@ -150,31 +164,48 @@ def rsa_plan_thorough():
         for cfg in PSS_FULL[cl]:
             add("pss", kn, cfg, ["asc33"], full)
         for hn in B.PSS_HASHES:
-            if cl != "C":
-                add("pss", kn, (hn, None, None), ["asc33"], ["sig", "forge"])
-                add("pss", kn, (hn, None, "max"), ["asc33"], ["sig", "forge"])
-            else:
-                add("pss", kn, (hn, None, None), ["asc33"], ["sig"])
-                add("pss", kn, (hn, None, "max"), ["asc33"], ["forge"] if hn in ("sha1", "sha512", "sha3_512") else [])
+            add("pss", kn, (hn, None, None), ["asc33"], ["sig", "forge"])
+            add("pss", kn, (hn, None, "max"), ["asc33"], ["sig", "forge"])
         # every salt length from 0 to the largest that fits and one more (the first that does not)
         for hn in SWEEP_HASHES[cl]:
             smax = (bits - 1 + 7) // 8 - B.hash_size(hn) - 2
             for sl in range(0, smax + 2):
-                add("pss", kn, (hn, None, sl), ["asc33"], ["sig", "forge"] if (cl == "A" and hn == "sha256") else ["sig"] if cl != "C" else [])
-        # every ordered pair (message hash, MGF1 hash)
-        if cl != "C":
-            for hn in B.PSS_HASHES:
-                for mg in B.PSS_HASHES:
-                    if mg != hn:
-                        add("pss", kn, (hn, mg, None), ["asc33"], [])
+                add("pss", kn, (hn, None, sl), ["asc33"], ["sig", "forge"] if (cl == "A" and hn == "sha256") else ["sig"])
+        # every ordered pair (message hash, MGF1 hash); salt of the default length, or the longest where that does not fit
+        for hn in B.PSS_HASHES:
+            fits = (bits - 1 + 7) // 8 >= 2 * B.hash_size(hn) + 2
+            for mg in B.PSS_HASHES:
+                if mg != hn:
+                    add("pss", kn, (hn, mg, None if fits else "max"), ["asc33"], [])
+    # class C (3072 and 4096 bits; the reference private operation in pure Python dominates): every hash signs and verifies,
+    # the bit-flip alphabets for SHA-256 (4096 bits: the reduced alphabet of encoded-message bits), forgeries for a few
+    # configurations, every salt length signs and verifies
+    for kn in ("rsa3072e65537", "rsa4096e65537"):
+        bits = int(kn[3:].split("e")[0])
+        fullc = full if bits == 3072 else ["sig", "flips", "forge", "emflips64"]
+        for hn in B.V15_HASHES:
+            add("v15", kn, hn, ["asc33"], fullc if hn == "sha256" else ["sig", "forge"] if hn in V15_SIGFORGE_C else ["sig"])
+        add("v15", kn, "sha256", ["empty", "seeded150"], [])
+        add("pss", kn, ("sha256", None, None), ["asc33"], fullc)
+        add("pss", kn, ("sha256", None, None), ["empty", "seeded150"], [])
+        for cfg in PSS_CFGS:
+            add("pss", kn, cfg, ["asc33"], ["sig", "forge"] if cfg in PSS_FORGE_C else ["sig"])
+        for hn in B.PSS_HASHES:
+            add("pss", kn, (hn, None, None), ["asc33"], ["sig"])
+            add("pss", kn, (hn, None, "max"), ["asc33"], [])
+        smax = (bits - 1 + 7) // 8 - 32 - 2
+        for sl in range(0, smax + 2):
+            add("pss", kn, ("sha256", None, sl), ["asc33"], [])
     plan = []
     for ident in order:
         scheme, kn, cfg, mnames = ident
-        what = [w for w in full if w in grid[ident]]
-        bits = RSA._KEYS[kn]["bits"] if RSA._KEYS and kn in RSA._KEYS else int(kn[3:].split("e")[0]) if kn[3:4].isdigit() else 512
+        what = [w for w in full + ["emflips64"] if w in grid[ident]]
+        bits = RSA._KEYS[kn]["bits"]
         cost = _rsa_cost(bits, scheme, cfg, what, len(mnames))
+        if not what and scheme == "pss":
+            cost = max(cost, 4 * (0.0006 + 0.00145) * (bits / 1024.0) ** 2.63)          # four salts are signed
         shard = (scheme, kn, cfg, list(mnames), what, other[kn])
-        nparts = int(cost / 6.0) + 1 if ("flips" in what or "emflips" in what) else 1
+        nparts = int(cost / 6.0) + 1 if ("flips" in what or "emflips" in what or "emflips64" in what) else 1
         if nparts == 1:
             plan.append((cost, shard))
         else:
@@ -240,6 +271,77 @@ REFC = {"p192": 30, "p224": 40, "p256": 50, "p384": 150, "p521": 260}           
 
 
 def dss_plan(q):
+    return _dss_plan_base(q) if q else dss_plan_thorough()
+
+
+ALL_MSGS = ["empty", "asc33", "seeded150", "zeros64", "ff1"]
+
+
+def dss_plan_thorough():
+    """everything the first version of the thorough tier contained (_dss_plan_base(False)) plus the added dimensions"""
+    plan = list(_dss_plan_base(False))
+    def norm(sh):
+        return tuple(tuple(x) if isinstance(x, list) else x for x in sh)
+    have = {norm(sh) for _, sh in plan}
+
+    def add(cost, sh):
+        ident = norm(sh)
+        if ident not in have:
+            have.add(ident)
+            plan.append((cost, sh))
+    names = [n for n, _, _ in DSS.DSA_FIXT] + ["dsa2048_256"] + list(DSS.CURVES)
+    for kn in names:
+        c = COST[kn] / 1000.0
+        rc = REFC.get(kn, 8) / 1000.0
+        kd = DSS._KEYS[kn]
+        ec = kd["kind"] == "ec"
+        for mode in ("det", "fips"):
+            for enc in ("binary", "der"):
+                # the fifth message of the value alphabet for every hash
+                for hn in DSS_H:
+                    add(4 * c + rc, ("sign", kn, mode, enc, [hn], ["ff1"]))
+        # boundary private keys: the four of the first version and six more scalars, every hash, both encodings and both modes
+        for tags, hs in ((DSS.BOUNDARY, DSS_H), (DSS.BOUNDARY_T, DSS_H)):
+            for tag in tags:
+                for mode in ("det", "fips"):
+                    for enc in ("binary", "der"):
+                        for hn in hs:
+                            add(4 * c + 2 * rc, ("sign", "%s/x=%s" % (kn, tag), mode, enc, [hn], ["asc33"]))
+        for enc in ("binary", "der"):
+            nbits = 16 * DSS.obytes(kd) + (64 if enc == "der" else 0)
+            nparts = max(1, int(nbits * c / 4.0) + 1)
+            # every bit of the RFC 6979 signature and the structured alphabet: every hash x every message
+            for hn in DSS_H:
+                for mn in ALL_MSGS:
+                    for part in range(nparts):
+                        add(nbits * c / nparts + (120 * c + 4 * rc if part == 0 else 0), ("cand", kn, "det", enc, hn, mn, (part, nparts)))
+            # the same with the verifier in mode fips-186-3: every hash that mode admits (asc33), SHA-256 also with seeded150
+            for hn, mn in [(h, "asc33") for h in DSS_H if DSS.fips_accepts(kd, h)] + [("sha256", "seeded150")]:
+                for part in range(nparts):
+                    add(nbits * c / nparts + (120 * c + 4 * rc if part == 0 else 0), ("cand", kn, "fips", enc, hn, mn, (part, nparts)))
+            # the same under the boundary private keys (public points G, 2G, 3G, ... and their negatives), SHA-256
+            for tag in DSS.BOUNDARY + DSS.BOUNDARY_T:
+                for part in range(nparts):
+                    add(nbits * c / nparts + (120 * c + 4 * rc if part == 0 else 0),
+                        ("cand", "%s/x=%s" % (kn, tag), "det", enc, "sha256", "asc33", (part, nparts)))
+            # one octet of the signature takes every value: all tag / length octets in one shard, each content octet in its own
+            for hn in ("sha256", "sha512" if ec else "sha1"):
+                if enc == "der":
+                    add(0.5 + 200 * c, ("sweep", kn, enc, hn, "asc33", ("seq-tag", "seq-len", "seq-len-2", "r-tag", "r-len", "s-tag", "s-len")))
+                for nm in ("r-first", "r-last", "s-first", "s-last"):
+                    add(255 * c + 0.05, ("sweep", kn, enc, hn, "asc33", (nm,)))
+            # entropy tapes: the extended boundary set with two hashes, the first-octet sweep with DER too
+            for hn in ("sha256", "sha512"):
+                add(32 * (5 * c + 2 * rc), ("tape", kn, enc, hn, "ext"))
+            add(256 * (c + rc), ("tape", kn, enc, "sha256", True))
+    # DSA domains outside the FIPS (L, N) list: observed, not judged
+    for L, N in DSS.NONFIPS_LN:
+        for enc in ("binary", "der"):
+            add(0.3, ("nonfips", "dsaX%d_%d" % (L, N), enc, list(DSS_H), "asc33"))
+    return plan
+
+
+def _dss_plan_base(q):
     plan = []
     names = [n for n, _, _ in DSS.DSA_FIXT] + ["dsa2048_256"] + list(DSS.CURVES)
     big = ("dsa3072_256", "p384", "p521")
@@ -289,9 +391,40 @@ DSS_H = B.DSS_HASHES
 
 
 def ed_plan(q):
+    return _ed_plan_base(q) if q else ed_plan_thorough()
+
+
+# thorough tier: message lengths of the sign()/verify() sweep: every length up to two SHA-512 blocks (128 octets each; SHAKE256
+# rate: 136) and a bit more, so that prefix || message and R || A || message end at every offset of a block; then 2^k - 1, 2^k,
+# 2^k + 1
+ED_LENGTHS = list(range(0, 273)) + [n + d for n in (512, 1024, 4096, 65536) for d in (-1, 0, 1)]
+ED_SWEEP_VARIANTS = (0, 1, 2, 4, 6, 8, 10, 12)     # every pure variant (contexts of 0, 1, 2, 127, 128, 254, 255 octets), prehash
+
+
+def ed_plan_thorough():
+    plan = list(_ed_plan_base(False, len(ED.VARIANTS_T)))
+    for cv, u in (("ed25519", 1.0), ("ed448", 2.5)):
+        for vi in ED_SWEEP_VARIANTS:
+            for i in range(0, len(ED_LENGTHS), 8):
+                plan.append((0.07 * u * 8, ("sign", cv, vi, ["len:%d" % n for n in ED_LENGTHS[i:i + 8]])))
+        for vi in range(len(ED.VARIANTS_T)):
+            for mn in ("empty", "seeded150", "zeros64", "ff1"):
+                for part in range(3):
+                    plan.append((2.6 * u / 3 + 0.2, ("genuine", cv, vi, mn, (part, 3))))
+        for vi in range(len(ED.VARIANTS_T)):
+            for nm in ED.SWEEPS:
+                plan.append((0.4 * u, ("edsweep", cv, vi, "asc33", (nm,))))
+        for vi in range(len(ED.VARIANTS)):
+            for mn in ("empty", "seeded150"):
+                for part in range(12):
+                    plan.append((0.25 * u, ("crafted", cv, vi, "product", part, 12, mn)))
+    return plan
+
+
+def _ed_plan_base(q, nvariants=None):
     plan = []
     for cv, u in (("ed25519", 1.0), ("ed448", 2.5)):
-        for vi in range(len(ED.VARIANTS)):
+        for vi in range(nvariants or len(ED.VARIANTS)):
             ms = ["empty", "asc33", "seeded150"] if q else ["empty", "asc33", "seeded150", "zeros64", "ff1"]
             for mn in ms:
                 plan.append((0.12 * u, ("sign", cv, vi, [mn])))
@@ -313,6 +446,140 @@ def ed_plan(q):
 
 
 # ---------------------------------------------------------------------------
+def _nonfips_summary(a):
+    out = {}
+    for L, N, hn, enc, outcome in a.distinct.get("nonfips", ()):
+        k = "%s %s: %s" % (L, N, outcome)
+        out[k] = out.get(k, 0) + 1
+    return {k: out[k] for k in sorted(out)}
+
+
+def grid_description(q, dsskeys):
+    g = {
+        "rsa_keys": sorted({k for _, sh in rsa_plan(q) for k in [sh[1]]}),
+        "v15_hashes": list(B.V15_HASHES), "pss_hashes": list(B.PSS_HASHES), "dss_hashes": list(B.DSS_HASHES),
+        "rsa_bit_flips": "every bit of the signature (SHA-256, each key) and every bit of the authentic encoded message "
+                         "(re-signed with the private key)",
+        "dss_keys": sorted(dsskeys),
+        "dss_bit_flips": ("every bit of the RFC 6979 signature (binary and DER) with SHA-256; quick: not for P-384/P-521"
+                          if q else "every bit of the RFC 6979 signature (binary and DER), three hashes, all keys"),
+        "eddsa_variants": [ED.vname(*v) for v in ED.VARIANTS],
+        "eddsa_crafted_shape": "star (A or R the neutral element, or both canonical)" if q else "full product A x R",
+        "messages": {k: len(v) for k, v in B.messages().items()},
+    }
+    if q:
+        return g
+    fixt = RSA.FIXT + RSA.GEN_T
+    g.update({
+        "rsa_moduli_bits": sorted({b for b, _ in fixt}) + [512] + ["tLen+10, tLen+11, tLen+12 octets for every PKCS#1 v1.5 hash"],
+        "rsa_generated_keys": "%s: first primes after fixed starting points (mc.ref.nt), e = 65537 and 3 for 1026..1030 bits, e = 65537 "
+                              "for 1536 / 2049 / 3072 / 4096 bits; with the fixtures the bit length takes every residue mod 8"
+                              % [RSA.keyname(b, e) for b, e in RSA.GEN_T],
+        "rsa_classes": {"A": "moduli of 1024..1032 bits (18 keys)", "B": "1536, 2048 (e = 65537 and 3), 2049 bits", "C": "3072, 4096 bits"},
+        "rsa_bit_flips": {
+            "alphabets": "every bit of the signature; every bit of the authentic encoded message, re-signed with the private key "
+                         "(4096 bits: first and last 64 bits and bit (i mod 8) of every octet i of the encoded message)",
+            "v15_hashes": {k: list(v) for k, v in V15_FULL.items()},
+            "pss_configurations (hash, MGF1 hash, salt length)": {k: [list(c) for c in v] for k, v in PSS_FULL.items()}},
+        "v15_candidates": "classes A and B: signature-level candidates and forged encoded messages for every hash (%d); class C: for "
+                          "SHA-256 and %s, signature-level candidates for every hash; SHA-256 with all five messages (A, B)"
+                          % (len(B.V15_HASHES), list(V15_SIGFORGE_C)),
+        "pss_salt_lengths": "every sLen from 0 to emLen - hLen - 2 and emLen - hLen - 1 (the first that does not fit): classes A: "
+                            "SHA-256 (with forged encoded messages), SHA-1, SHA-512; B: SHA-256; C: SHA-256 (sign and verify only); "
+                            "four salt values each",
+        "pss_mgf1": "every ordered pair (message hash, MGF1 hash) of the %d PSS hashes on every key of classes A and B" % len(B.PSS_HASHES),
+        "pss_configurations": [list(c) for c in PSS_CFGS] + ["(h, same, default) and (h, same, max) for every PSS hash h"],
+        "dss_bit_flips": "every bit of the RFC 6979 signature and the structured candidate alphabet: every key x {binary, der} x every "
+                         "DSS hash x all five messages; with the verifier in mode fips-186-3: every hash that mode admits (asc33) and "
+                         "SHA-256 / seeded150; under each of the ten boundary private keys of every domain / curve: SHA-256 / asc33",
+        "dss_octet_sweeps": {"what": "one octet of the RFC 6979 signature replaced by each of the 255 other values",
+                             "positions": {k: list(v) for k, v in DSS.SWEEP_NAMES.items()},
+                             "also": "seq-len-2 (second length octet) where the SEQUENCE needs the long form (P-521)",
+                             "hashes": "SHA-256 and SHA-512 (ECDSA) / SHA-1 (DSA); every key"},
+        "dss_boundary_private_keys": {"x": list(DSS.BOUNDARY) + list(DSS.BOUNDARY_T),
+                                      "hashes": "every DSS hash",
+                                      "modes_encodings": "both x both"},
+        "dss_entropy_tapes": "boundary set (k = 1, 2, 3, 4, 256, 257, 2^(bits-1), 2^(bits-1)+1, q-4 .. q-1, mid; draws q-1, q, q+1, "
+                             "2^bits-2, 2^bits-1 rejected; 2, 3, 4, 8 draws rejected; rejected draws followed by k = 1, 2, q-1; junk "
+                             "above the top bits) x {binary, der} x {SHA-256, SHA-512}; first-octet sweep (256 tapes) x {binary, der}",
+        "dss_nonfips_domains (observed, not judged)": ["L=%d N=%d" % ln for ln in DSS.NONFIPS_LN],
+        "eddsa_variants": [ED.vname(*v) for v in ED.VARIANTS_T],
+        "eddsa_message_lengths": {"lengths": "0..272 and 2^k-1, 2^k, 2^k+1 for 2^k = 512, 1024, 4096, 65536 (%d lengths)" % len(ED_LENGTHS),
+                                  "variants": [ED.vname(*ED.VARIANTS_T[v]) for v in ED_SWEEP_VARIANTS]},
+        "eddsa_bit_flips": "every bit of the genuine signature and the structured candidates: every variant x all five messages",
+        "eddsa_octet_sweeps": {"positions": list(ED.SWEEPS), "variants": "all", "values": "the 255 other values"},
+        "eddsa_crafted_messages": "asc33 for every variant; empty and seeded150 for the six variants of the quick tier",
+    })
+    return g
+
+
+def thorough_guards(ctx, a, cl):
+    """vacuity guards of the dimensions that only the thorough tier has"""
+    n = a.n
+    d = a.distinct
+
+    def got(name):
+        return d.get(name, set())
+    # RSA: every residue of the modulus bit length mod 8, the large moduli, every hash on every key, every salt length, every
+    # (hash, MGF1 hash) pair
+    rbits = {c[1] for c in cl if c[0] in ("v15", "pss")}
+    ctx.require({b % 8 for b in rbits if 1024 <= b <= 1032} == set(range(8)) and {1536, 2048, 2049, 3072, 4096} <= rbits,
+                "RSA: moduli of 1024..1032 bits (every residue mod 8), 1536, 2048, 2049, 3072, 4096 bits not all used: %s" % sorted(rbits))
+    fixt = RSA.FIXT + RSA.GEN_T
+    ctx.require({(b, e, h) for b, e in fixt for h in B.V15_HASHES} <= got("v15_cfgs"), "PKCS#1 v1.5: not every hash on every key")
+    pc = got("pss_cfgs")
+    for b, e in fixt:
+        em_len = (b - 1 + 7) // 8
+        for hn in SWEEP_HASHES[rsa_class(b)]:
+            smax = em_len - B.hash_size(hn) - 2
+            ctx.require({(b, e, hn, hn, sl) for sl in range(smax + 2)} <= pc, "PSS: not every salt length 0..%d with %s on the %d-bit key (e=%d)"
+                        % (smax + 1, hn, b, e))
+        if rsa_class(b) != "C":
+            ctx.require({(b, e, h, m) for h in B.PSS_HASHES for m in B.PSS_HASHES} <= {x[:4] for x in pc if x[4] > 0},
+                        "PSS: not every (hash, MGF1 hash) pair on the %d-bit key (e=%d)" % (b, e))
+    ctx.require(any(c[0] == "pss-forge" and c[1] == 4096 and c[4] == "em-bit-flip" for c in cl) and
+                any(c[0] == "v15" and c[1] == 3072 and c[4] == "bit-flip" for c in cl), "RSA: bit-flip alphabets of the 3072 / 4096-bit keys not run")
+    ctx.require(any(c[0] == "pss-salt-does-not-fit" and c[3].isdigit() for c in cl), "PSS: the first salt length that does not fit was never offered")
+    # DSS
+    names = [k for k, _, _ in DSS.DSA_FIXT] + ["dsa2048_256"] + list(DSS.CURVES)
+    dsskeys = {c[1] for c in cl if c[0] in ("dsa", "ecdsa")}
+    ctx.require({"%s/x=%s" % (k, t) for k in names for t in DSS.BOUNDARY_T} <= dsskeys, "DSS: not all additional boundary private keys were used")
+    ctx.require({(k, "det", enc, h, m, True) for k in names for enc in ("binary", "der") for h in B.DSS_HASHES for m in ALL_MSGS} <= got("cand_cfgs"),
+                "DSS: bit-flip alphabet not applied for every key x encoding x hash x message")
+    ctx.require({(k, "fips", enc, h, "asc33", True) for k in names for enc in ("binary", "der") for h in B.DSS_HASHES
+                 if DSS.fips_accepts(DSS._KEYS[k], h)} <= got("cand_cfgs"), "DSS: bit-flip alphabet not applied with the fips-186-3 verifier")
+    ctx.require({("%s/x=%s" % (k, t), "det", enc, "sha256", "asc33", True) for k in names for enc in ("binary", "der")
+                 for t in DSS.BOUNDARY + DSS.BOUNDARY_T} <= got("cand_cfgs"), "DSS: bit-flip alphabet not applied under the boundary private keys")
+    ctx.require({(k, enc, "sha256", nm) for k in names for enc in ("binary", "der") for nm in DSS.SWEEP_NAMES[enc]} <= got("sweep_cfgs"),
+                "DSS: octet sweeps incomplete")
+    ctx.require(("p521", "der", "sha256", "seq-len-2") in got("sweep_cfgs"), "DSS: the two-octet SEQUENCE length of P-521 was not swept")
+    tcl = [c for c in cl if c[0] in ("dsa", "ecdsa") and len(c) == 8 and c[2] == "tape"]
+    ctx.require({c[1] for c in tcl if c[4] == "eight draws rejected" and c[5] == 9} >= set(names), "DSS: tapes with eight rejected draws not run on every key")
+    ctx.require(any(c[4] == "octet/r-len" for c in cl if c[0] in ("dsa", "ecdsa") and len(c) == 8) and n.get("octet_sweep_cases", 0) > 50000,
+                "octet sweeps: too few cases")
+    nf = got("nonfips")
+    ctx.require({(x[0], x[1]) for x in nf} == {("L=%d" % L, "N=%d" % N) for L, N in DSS.NONFIPS_LN} and
+                any(x[4].startswith("signature equals") for x in nf), "non-FIPS DSA domains: not all observed")
+    # EdDSA
+    for cv in ("ed25519", "ed448"):
+        ctx.require({(cv, ph, ln) for ph in (False, True) for ln in (0, 1, 2, 127, 128, 254, 255)} <= got("ed_ctx_lens"),
+                    "%s: not every context length x prehash flag was signed" % cv)
+        sc = got("sign_cfgs")
+        for vi in ED_SWEEP_VARIANTS:
+            ph, c = ED.VARIANTS_T[vi]
+            ctx.require({(cv, ph, len(c), "len:%d" % ln) for ln in ED_LENGTHS} <= sc, "%s: message length sweep incomplete (%s)" % (cv, ED.vname(ph, c)))
+        ctx.require({(cv, ph, len(c), "asc33", nm) for ph, c in ED.VARIANTS_T for nm in ED.SWEEPS} <= got("ed_sweep_cfgs"),
+                    "%s: octet sweeps incomplete" % cv)
+        ctx.require({(cv, ph, len(c), m, True) for ph, c in ED.VARIANTS_T for m in ALL_MSGS} <= got("ed_genuine_cfgs") and
+                    {(cv, ph, len(c), "asc33") for ph, c in ED.VARIANTS_T} <= got("ed_crafted_cfgs"),
+                    "%s: bit flips / crafted small-order grid not run for every variant" % cv)
+    # object reuse
+    ctx.require(n.get("reuse_histories", 0) == RU.expected_histories(False) and
+                got("reuse_depths") == {(nm, RU.depth_of(nm, False)) for nm in RU.schemes(False)},
+                "object-reuse histories: %d executed, %d planned" % (n.get("reuse_histories", 0), RU.expected_histories(False)))
+    ctx.require(len(cl) > 40000, "fewer behaviour classes than the thorough alphabets must produce: %d" % len(cl))
+
+
 def run(ctx):
     q = ctx.quick
     acc = ctx.acc
@@ -323,15 +590,15 @@ def run(ctx):
     for mod in (R, RD, D, RMD):
         mod.selftest()
     B.check_hash_table(acc)
-    RSA.build_keys(acc)
-    DSS.build_keys(acc)
+    RSA.build_keys(acc, thorough=not q)
+    DSS.build_keys(acc, thorough=not q)
     ED.build_keys(acc)
     child.join(300)
     if child.exitcode != 0:
         acc.error("mc.ref.ec.selftest() failed (exit code %r)" % child.exitcode)
         return
     phases = {"selftests_and_keys": round(time.time() - t0, 1)}
-    nb = max(32, ctx.workers * 5)
+    nb = max(32, ctx.workers * 5) if q else max(64, ctx.workers * 16)
     for name, mod, plan in (("dss", DSS, dss_plan(q)), ("rsa", RSA, rsa_plan(q)), ("eddsa", ED, ed_plan(q)),
                             ("reuse", RU, RU.plan(q))):
         t = time.time()
@@ -358,6 +625,8 @@ def run(ctx):
                  for t in DSS.BOUNDARY} <= dsskeys, "not all boundary private keys (1, 2, q-2, q-1) were used")
     ctx.require(len(a.distinct.get("reuse_schemes", ())) == len(RU.schemes(q)) and n.get("reuse_histories", 0) >= 9 * 91 * len(RU.schemes(q)),
                 "object-reuse histories: not every scheme object was driven through every history")
+    if not q:
+        thorough_guards(ctx, a, cl)
     ctx.require({(c[2], c[3]) for c in cl if c[0] in ("dsa", "ecdsa") and c[2] in ("det", "fips")} ==
                 {(m, e) for m in ("det", "fips") for e in ("binary", "der")}, "not all (mode, encoding) pairs were used")
     reasons = {c[6] for c in cl if c[0] in ("v15", "v15-forge", "pss", "pss-forge")}
@@ -399,33 +668,32 @@ def run(ctx):
         "distinct_sign_configurations": len(a.distinct.get("sign_cfgs", ())),
         "fips_entropy_tapes": n.get("tapes", 0),
         "object_reuse": {"scheme_objects": sorted(a.distinct.get("reuse_schemes", ())), "histories": n.get("reuse_histories", 0),
-                         "calls": n.get("reuse_calls", 0), "depth": 3 if q else 4,
+                         "calls": n.get("reuse_calls", 0),
+                         "depth": 3 if q else {"5": sorted(RU.DEPTH5), "4": "all other scheme objects"},
                          "alphabet": [RU.opname(o) for o in RU.ALPHABET],
                          "oracle": "outcome of every call equals the outcome of the same call on a fresh object"},
         "eddsa_crafted_small_order_cases": n.get("crafted_cases", 0),
+        "octet_sweep_cases": n.get("octet_sweep_cases", 0),
+        "dss_nonfips_domain_outcomes (observed, not judged)": _nonfips_summary(a),
         "verify_outcomes": {k: n.get(k, 0) for k in ("rsa_accept", "rsa_reject", "rsa_other", "dss_accept", "dss_reject", "dss_other",
                                                      "ed_accept", "ed_reject", "ed_other")},
         "forged_em_skipped": {"not_below_n": n.get("forgery_not_below_n", 0), "not_constructible": n.get("forgery_not_constructible", 0)},
         "rsa_reference_rejection_classes": sorted(str(r) for r in reasons if r),
         "phase_wall_s": phases,
-        "grid": {
-            "rsa_keys": sorted({k for _, sh in rsa_plan(q) for k in [sh[1]]}),
-            "v15_hashes": list(B.V15_HASHES), "pss_hashes": list(B.PSS_HASHES), "dss_hashes": list(B.DSS_HASHES),
-            "rsa_bit_flips": "every bit of the signature (SHA-256, each key) and every bit of the authentic encoded message "
-                             "(re-signed with the private key)",
-            "dss_keys": sorted(dsskeys),
-            "dss_bit_flips": ("every bit of the RFC 6979 signature (binary and DER) with SHA-256; quick: not for P-384/P-521"
-                              if q else "every bit of the RFC 6979 signature (binary and DER), three hashes, all keys"),
-            "eddsa_variants": [ED.vname(*v) for v in ED.VARIANTS],
-            "eddsa_crafted_shape": "star (A or R the neutral element, or both canonical)" if q else "full product A x R",
-            "messages": {k: len(v) for k, v in B.messages().items()},
-        },
+        "grid": grid_description(q, dsskeys),
     })
     ctx.assume("message / key / salt VALUES are fixed representatives (DESIGN 2.4); structure (lengths, bit positions, boundary "
                "integers, encodings, tapes) is enumerated completely within the stated grids")
     ctx.assume("soundness is one-sided: standard-valid signatures sign() never emits (ECDSA with x(R) >= n cannot be crafted; "
                "(r, q-s); small-order EdDSA points the library refuses) are observations only")
-    ctx.assume("RSA-2048 keys only in thorough; bit-flip alphabets are applied to the SHA-256 signature / encoded message of each key")
+    if q:
+        ctx.assume("RSA-2048 keys only in thorough; bit-flip alphabets are applied to the SHA-256 signature / encoded message of each key")
+    else:
+        ctx.assume("RSA bit-flip alphabets are applied to the hashes / PSS configurations listed in grid.rsa_bit_flips; the 4096-bit key "
+                   "gets a reduced alphabet of encoded-message bits (the reference private operation is pure Python)")
+        ctx.assume("DSA domains outside the four FIPS 186-4 (L, N) pairs are outside the documented domain of DSS.new: what "
+                   "mode deterministic-rfc6979 does with them is recorded as observations, never judged")
+        ctx.assume("object-reuse histories reach depth 5 for the scheme objects with the cheapest calls, depth 4 for the others")
     ctx.assume("PSS hashes are those hashlib can name (the reference MGF1 needs them); BLAKE2/MD2/MD4 only for PKCS#1 v1.5")
     ctx.assume("DigestInfo without NULL parameters is tolerated (RFC 8017 A.2.4 note): acceptance is logged, not judged")
     ctx.assume("the FIPS-mode nonce is read off the tape by the FIPS 186-4 B.2.2 testing-candidates rule (c = bits; c > q-2: "
@@ -442,7 +710,7 @@ def replay(case, acc):
     elif p.startswith("ed"):
         ED.replay(case, acc)
     elif p == "reuse":
-        RSA.build_keys(acc)
+        RSA.build_keys(acc, thorough=True)            # the thorough tier's scheme objects use generated keys
         DSS.build_keys(acc)
         ED.build_keys(acc)
         RU.replay(case, acc)
